@@ -202,8 +202,23 @@ Definition wheel_tags_score (l : list string) : res Z :=
 
 (* ---------------------------------------------------------------- manylinux policy *)
 
-Definition alias (p : string) : string :=
-  match assoc p legacy_aliases with Some q => q | None => p end.
+(* how a platform tag is re-spelled before MANYLINUX_REGEX is matched (gen: alias_mode_usability, alias_mode_score):
+   ATable  = LEGACY_ALIASES.get(tag, tag)            (full tag -> full tag; x86_64 / i686 only)
+   APrefix = _normalize_manylinux(tag)               (tag.partition("_"), prefix table: any machine)
+   ANone   = not at all *)
+Definition alias_with (m : amode) (p : string) : string :=
+  match m with
+  | ANone => p
+  | ATable => match assoc p legacy_aliases with Some q => q | None => p end
+  | APrefix =>
+      match partition_char "_"%char p with
+      | (legacy, true, arch) =>
+          match assoc legacy legacy_manylinux with Some q => q ++ "_" ++ arch | None => p end
+      | _ => p
+      end
+  end.
+Definition alias (p : string) : string := alias_with alias_mode_usability p.      (* check_usability side *)
+Definition alias_score (p : string) : string := alias_with alias_mode_score p.     (* tag_score side *)
 
 (* re.match(MANYLINUX_REGEX, s).groups() with the first two groups converted by int() *)
 Definition manylinux_prefix : string := "manylinux_".
@@ -267,8 +282,8 @@ Record cand := mkCand {
 }.
 
 Definition plat_step (c : cfg) (acc : Z) (p : string) : Z :=
-  if String.eqb p "any" then 0%Z else
-  let p' := alias p in
+  if String.eqb p "any" then (if any_resets then 0%Z else Z.max acc 0%Z) else
+  let p' := alias_score p in
   match manylinux_parse p' with
   | Some (a, b, _) => Z.max acc ((Z.of_N a * 10 + Z.of_N b) * 100)%Z
   | None =>
@@ -319,6 +334,7 @@ Definition sortkey (c : cfg) (k : cand) : res (list (list Z)) :=
                         | FExtra => codes (k_extra k)
                         | FType => [dist_type_value (k_type k)]
                         | FTagScore => ts
+                        | FFilename => codes (match k_filename k with Some f => f | None => EmptyString end)
                         end) sortkey_fields)
   end.
 
